@@ -282,6 +282,37 @@ var scenarios = []schedrig.Scenario{
 		stopSpinner(w, sp)
 		w.Vx.Close()
 	}},
+	{Name: "spinner-start-stop-from-worker", Queue: 8, Body: func(w *schedrig.World) {
+		// a worker starts the spinner and stops it again before the main goroutine has had a turn: both
+		// requests reach the main goroutine, in order, and the spinner ends up stopped (its ticker
+		// goroutine gone by the time Close returns)
+		sp := spinner.New(w.Vx, 100*time.Millisecond)
+		vsched.GoNamed("worker", func() {
+			sp.Start()
+			sp.Stop()
+			w.Vx.PostEventBlocking(schedrig.UserEv{Src: "W", N: 0})
+		})
+		w.Until(func() bool { return w.Seen("W0") && count(w.Got, "syncfunc") >= 2 })
+		sp.Draw(w.Vx.Window())
+		w.Vx.Close()
+	}},
+	{Name: "spinner-stop-start-from-worker", Queue: 8, Body: func(w *schedrig.World) {
+		// the mirror image: a running spinner is stopped and started again by a worker; it must be
+		// running afterwards (ticks keep arriving)
+		sp := spinner.New(w.Vx, 100*time.Millisecond)
+		sp.Start()
+		w.Until(func() bool { return count(w.Got, "syncfunc") >= 1 })
+		vsched.GoNamed("worker", func() {
+			sp.Stop()
+			sp.Start()
+			w.Vx.PostEventBlocking(schedrig.UserEv{Src: "W", N: 0})
+		})
+		w.Until(func() bool { return w.Seen("W0") && count(w.Got, "syncfunc") >= 3 })
+		from := len(w.Got)
+		w.Until(func() bool { return count(w.Got[from:], "redraw") > 0 })
+		stopSpinner(w, sp)
+		w.Vx.Close()
+	}},
 	{Name: "sigwinch", Queue: 8, Body: func(w *schedrig.World) {
 		vsched.AddEnv("SIGWINCH", true, func() bool { return true }, func() {
 			w.T.Resize(30, 8)
